@@ -169,9 +169,11 @@ fn build(seed: u64) -> Layout {
     if r.chance(1, 4) {
         main.push_str("include \"does_not_exist.qasm\";\n");
     }
-    if r.chance(1, 4) {
-        // an include below the global scope, in every kind of body
-        main.push_str(*r.pick(&[
+    if r.chance(1, 3) {
+        // an include below the global scope, in every kind of body; in front of the includes at the
+        // global scope (so that a slip in the pairing of include statements and files read shows in
+        // every later include) or behind them
+        let block_include = *r.pick(&[
             "if (before == 1) { include \"inc0.qasm\"; }\n",
             "if (before == 1) { } else { include \"inc0.qasm\"; }\n",
             "while (before == 1) { include \"inc0.qasm\"; }\n",
@@ -180,7 +182,13 @@ fn build(seed: u64) -> Layout {
             "gate holder_g qh { include \"inc0.qasm\"; }\n",
             "def holder_d() { include \"inc0.qasm\"; }\n",
             "def holder_e(int pe) { if (pe == 1) { include \"inc0.qasm\"; } }\n",
-        ]));
+        ]);
+        if r.bool() {
+            main.push_str(block_include);
+        } else {
+            let at = main.find("before = v_f0_d0;\n").map(|p| p + "before = v_f0_d0;\n".len()).unwrap_or(0);
+            main.insert_str(at, block_include);
+        }
     }
     // uses of every copy's name: only the copies that were read resolve
     for f in 0..nfiles {
